@@ -156,6 +156,12 @@ func (state *RuntimeState) certGenHandler(w http.ResponseWriter, r *http.Request
 	if duration > maxDuration {
 		duration = maxDuration
 	}
+	// A negative duration wraps around in the (unsigned) SSH epoch arithmetic
+	// and yields a certificate which is valid for centuries.
+	if duration < 0 {
+		state.writeFailureResponse(w, r, http.StatusBadRequest, "Error parsing form (invalid duration)")
+		return
+	}
 
 	certType := "ssh"
 	if val, ok := r.Form["type"]; ok {
